@@ -767,6 +767,11 @@ class Interp:
     def binop(self, op, a, b, lty):
         if isinstance(a, Adt): a = a.variant
         if isinstance(b, Adt): b = b.variant
+        if type(a).__name__ == 'F64Text' or type(b).__name__ == 'F64Text':
+            # an f64 known by its decimal text: only the exact identities x / 1.0 and x * 1.0 are evaluated
+            if type(a).__name__ == 'F64Text' and isinstance(b, float) and b == 1.0 and op in ('Div', 'Mul'): return a
+            if type(b).__name__ == 'F64Text' and isinstance(a, float) and a == 1.0 and op == 'Mul': return b
+            raise Unsupported('f64 arithmetic %s on a number known only by its decimal text' % op)
         if isinstance(a, float) or isinstance(b, float):
             return FLOAT_BINOPS[op](a, b)
         if op in CMP:
